@@ -4,6 +4,11 @@
 #ifndef DRIVER_MAIN_H
 #define DRIVER_MAIN_H
 #include "hutil.h"
+#include <signal.h>
+#include <unistd.h>
+/* per-line hang guard: a line that does not finish within VERIF_LINE_TIMEOUT seconds (default 10)
+ * is reported as HANG and the process exits (the orchestrator restarts after that line) */
+static void driver_on_alarm(int sig) { (void)sig; static const char m[] = "HANG\n"; fflush(stdout); if(write(1, m, sizeof m - 1)) {} _exit(99); }
 /* optional: a leading token "@Name" selects a context (e.g. the current type) for this line only-and-after */
 __attribute__((weak)) int driver_select(const char *name);
 int main(void) {
@@ -12,7 +17,10 @@ int main(void) {
     ssize_t n;
     static char obuf[1 << 16];
     setvbuf(stdout, obuf, _IOFBF, sizeof(obuf));
+    int line_timeout = getenv("VERIF_LINE_TIMEOUT") ? atoi(getenv("VERIF_LINE_TIMEOUT")) : 10;
+    signal(SIGALRM, driver_on_alarm);
     while((n = getline(&line, &cap, stdin)) > 0) {
+        alarm(line_timeout);
         static char *argv[1 << 16];
         int argc = 0;
         char *save = 0;
@@ -32,6 +40,7 @@ int main(void) {
         if(!handled) fputs("bad-op", stdout);
         fputc('\n', stdout);
         fflush(stdout);
+        alarm(0);
     }
     free(line);
     return 0;
